@@ -184,11 +184,27 @@ theorem IInv.startOK {cfg : Cfg} {P : Params α} {den : Key → α} (hden : IsDe
     · exact (hseenIff r).mpr h1
     · rw [hstack] at h1; cases h1
 
+/-- the keys the traversal visited are exactly the keys reachable from the request -/
+theorem IInv.seen_iff_reach {g : Graph} {results : List Key} {P : Params α} {s : InitSt α}
+    (h : IInv g results P s) (hstack : s.stack = []) (k : Key) : k ∈ s.seen ↔ Reach g results k := by
+  constructor
+  · intro hk; exact h.reach k (Or.inl hk)
+  · intro hr
+    induction hr with
+    | base hr =>
+      rcases h.resCover _ hr with h1 | h1
+      · exact h1
+      · rw [hstack] at h1; cases h1
+    | step _ hkj ih =>
+      rcases h.depCover _ ih _ hkj with h1 | h1
+      · exact h1
+      · rw [hstack] at h1; cases h1
+
 /-- **`startState_ok`**: `start_state_from_dask` on a closed graph never raises and returns a state satisfying the
 invariant the scheduler theorems start from. -/
 theorem startState_ok (cfg : Cfg) (P : Params α) {den : Key → α} (hden : IsDen cfg.g P den)
     (hG : GraphOK cfg.g cfg.results) :
-    ∃ st0, startState cfg P = .ok st0 ∧ StartOK cfg den st0 := by
+    ∃ st0, startState cfg P = .ok st0 ∧ StartOK cfg den st0 ∧ ∀ k, st0.seen k ↔ Reach cfg.g cfg.results k := by
   have hm : measure cfg.g ({ stack := cfg.results } : InitSt α) < initFuel cfg := by
     have hf : initFuel cfg = cfg.results.length + remSum cfg.g [] + 1 := by
       unfold initFuel
@@ -199,9 +215,11 @@ theorem startState_ok (cfg : Cfg) (P : Params α) {den : Key → α} (hden : IsD
     show cfg.results.length + remSum cfg.g [] < _
     omega
   obtain ⟨s', hrun, hI, hst⟩ := initLoop_spec (P := P) hG (initFuel cfg) _ (IInv.init hG) hm
-  refine ⟨finalState cfg.prio s', ?_, hI.startOK hden hG hst⟩
-  unfold startState
-  rw [hrun]
-  rfl
+  refine ⟨finalState cfg.prio s', ?_, hI.startOK hden hG hst, ?_⟩
+  · unfold startState
+    rw [hrun]
+    rfl
+  · intro k
+    exact (hI.depsDom k).trans (hI.seen_iff_reach hst k)
 
 end Dask.Sched
